@@ -304,4 +304,29 @@ theorem maxBucket_of_reach (a : Arr M) (n L : Nat) (h : List (Nat × M)) (latest
       rw [r.L_eq] at hz
       rw [hz, g0]
 
+/-! ## empty windows -/
+
+/-- a window that starts after every recorded bucket has the empty payload -/
+theorem refW_eq_zero_of_lt (L : Nat) (h : List (Nat × M)) (lo hi : Nat) (hold : ∀ e ∈ h, cbs L e.1 < lo) :
+    refW L h lo hi = 0 := by
+  unfold refW
+  apply List.sum_eq_zero
+  intro x hx
+  obtain ⟨e, he, rfl⟩ := List.mem_map.mp hx
+  have := hold e he
+  have hn : ¬ (lo ≤ cbs L e.1 ∧ cbs L e.1 ≤ hi) := by omega
+  simp [hn]
+
+theorem foldl_max_zero (l : List Nat) (hz : ∀ x ∈ l, x = 0) : l.foldl max 0 = 0 :=
+  Nat.le_zero.mp (foldl_max_le l 0 0 (le_refl _) (fun x hx => by rw [hz x hx]))
+
+/-- idle gap `g` longer than the array interval: every recorded bucket starts before the array-wide aligned window -/
+theorem idle_lt_window (n L now g : Nat) (hL : 0 < L) (h : List (Nat × M)) (hg : n * L < g)
+    (hidle : ∀ e ∈ h, e.1 + g ≤ now) : ∀ e ∈ h, cbs L e.1 < cbs L now + L - n * L ∧ e.1 + n * L < now := by
+  intro e he
+  have h1 := hidle e he
+  have h2 := cbs_le L e.1
+  have h3 := lt_cbs_add L now hL
+  exact ⟨by omega, by omega⟩
+
 end Sentinel.LA
